@@ -138,6 +138,29 @@ func (w *world) monitor(rep *emit.Report, prop string, hid int, n *node) {
 				}
 				rep.Fail(cl, "the event made the process panic (nil dereference)", in())
 			}
+			// M14 a timed-out (or any other) attempt can always be abandoned: aborts never consult the
+			// clock, an operator's abort succeeds from every state the protocol lets it leave by abort,
+			// and after the abort the retry at the same epoch is accepted
+			isAbortCmd := st.ev.kind == evCommand && st.ev.cmd.GetAbort() != nil
+			isAbortPkt := st.ev.kind == evPacket && st.ev.packet.GetAbort() != nil
+			if (isAbortCmd || isAbortPkt) && st.class == "ETimeoutReached" {
+				rep.Fail("C08-timed-out-attempt-cannot-be-abandoned", "an abort was refused because the proposal's timeout has passed: the attempt can never be left and the finished epoch is unusable for a new proposal", in())
+			} else if isAbortCmd && st.ev.cmd.GetMetadata() != nil && st.class != "ok" && st.class != "panic" {
+				base := b.cur.state
+				if specTerminal[base] {
+					if b.fin != nil {
+						base = b.fin.state
+					} else {
+						base = "Fresh"
+					}
+				}
+				if specEdge(base, "Aborted") {
+					rep.Fail("C08-timed-out-attempt-cannot-be-abandoned", "the operator's abort was refused ("+st.class+") in state "+base+", from which the protocol allows aborting", in())
+				}
+			}
+			if strings.HasPrefix(st.ev.descr, "retry-after-timeout") && st.class != "ok" {
+				rep.Fail("C08-timed-out-attempt-cannot-be-abandoned", "after the timed-out attempt was aborted, the fresh proposal for the same epoch was refused ("+st.class+")", in())
+			}
 			// M9 proposals the generator knows to break a rule must not be accepted
 			if st.ev.kind == evPacket && st.accepted && mustReject(st) != "" {
 				rep.Fail("C08-invalid-proposal-accepted", "proposal violating rule "+mustReject(st)+" was accepted", in())
